@@ -1,20 +1,19 @@
 #!/bin/sh
-# usage: tools/try_mutant.sh <patch.diff> <property>...   (applies to /repo, runs quick checks, reverts)
-# Holds the exclusive lock on /repo's working tree (checks hold it shared), so that no other check sees the mutant.
+# usage: tools/try_mutant.sh <patch.diff> <property>...
+# Applies the patch to a scratch worktree of /repo's HEAD (never to /repo itself) and runs the quick checks of the
+# given properties against that tree (VERIF_REPO): nothing another check builds from is touched, evidence/ is not
+# written (the run's evidence and replay files are under build/<id>@<tree>/), trials may run in parallel.
 patch="$(readlink -f "$1")"; shift
-mkdir -p /verif/build
-exec 9>/verif/build/.repo.lock
-flock -x 9
-export VERIF_REPO_LOCKED=1
-cd /repo || exit 2
-if ! git diff --quiet; then echo "/repo has uncommitted changes"; exit 2; fi
-git apply "$patch" || { echo "patch does not apply"; exit 2; }
+wt=$(mktemp -d /tmp/mutwt.XXXXXX)
+git -C /repo worktree add -q --detach "$wt" HEAD || exit 2
+cleanup() { git -C /repo worktree remove --force "$wt" 2>/dev/null; rm -rf "$wt"; }
+trap cleanup EXIT
+git -C "$wt" apply "$patch" || { echo "patch does not apply"; exit 2; }
 cd /verif
 for p in "$@"; do
-  ./check "$p" --tier ${TIER:-quick} > /tmp/try_$p.log 2>&1; rc=$?
-  echo "== $p exit=$rc: $(grep -c '^VIOLATION' /tmp/try_$p.log) violation lines; $(grep -m1 'tier=' /tmp/try_$p.log)"
-  grep '^VIOLATION' /tmp/try_$p.log | head -2
+  log=/tmp/try_${p}_$(basename "$wt").log
+  VERIF_REPO="$wt" ./check "$p" --tier ${TIER:-quick} > "$log" 2>&1; rc=$?
+  echo "== $p exit=$rc: $(grep -c '^VIOLATION' "$log") violation lines; $(grep -m1 'tier=' "$log")"
+  grep '^VIOLATION' "$log" | head -2
+  cp "$log" /tmp/try_$p.log
 done
-git -C /repo checkout -- .
-git -C /repo clean -fdq -- . 2>/dev/null
-git -C /repo status --short | head -3
